@@ -62,6 +62,13 @@ def run(ctx, rep):
     rep.rule("T5", "zero/origin objects are built with is_physicality_required=False from _generate_zero_obj / "
                    "_generate_origin_obj; zero values are np.zeros storage", floor=8)
 
+    rep.rule("T6", "origin objects are physical by construction: state d^-1/2 e0; POVM elements d^1/2/m e0; gate e0 e0^T; "
+                   "measurement process blocks (1/m) e0 e0^T with m the number of outcomes (constants of C03 I5 at the origin builders)",
+             floor=4)
+    from ..report import Relay
+    from . import c03
+    c03._check_constants(ctx, Relay(rep, {"I5": "T6"}, keep=lambda f, con: "._generate_origin_obj" in (getattr(f, "qualname", None) or str(f))))
+
     # ------------------------------------------------------------------ T1 / T2
     n_sites = 0
     for qn, p in ENTRIES:
